@@ -7,3 +7,7 @@ import ParryModel.C08.Theorems
 #print axioms C08.step_preserves_inv
 #print axioms C08.run_preserves_inv
 #print axioms C08.step_total
+#print axioms C08.boxContains_iff
+#print axioms C08.boxLaws_field
+#print axioms C08.refit_establishes_boxInv
+#print axioms C08.boxInv_semantic
